@@ -115,7 +115,67 @@ def work(case):
     return out, nontrivial, fail, stats
 
 
+def shared_block_case(layout, stream):
+    """A pattern in which the SAME BoboPatternBlock object stands at several positions ([a] + [b] * 2 + [c]) against the
+    pattern with equal but distinct block objects at those positions (which the model covers): the same reports and the
+    same active runs after every event.  -> failure text | None"""
+    from bobocep.cep.engine.decider.decider import BoboDecider
+    from bobocep.cep.engine.decider.pubsub import BoboDeciderSubscriber
+    from bobocep.cep.event import BoboEventSimple
+    from bobocep.cep.phenom.phenom import BoboPhenomenon
+    from bobocep.cep.phenom.pattern.pattern import BoboPattern, BoboPatternBlock
+    from bobocep.cep.phenom.pattern.predicate import BoboPredicateCall
+
+    def pred(sym):
+        return lambda e, h: e.data == sym
+
+    def blk(sym):
+        return BoboPatternBlock(group="g" + sym, predicates=[BoboPredicateCall(pred(sym))],
+                                strict=False, loop=False, negated=False, optional=False)
+
+    def drive(shared):
+        memo = {}
+        blocks = [memo.setdefault(sym, blk(sym)) if shared else blk(sym) for sym in layout]
+        pat = BoboPattern(name="p", blocks=blocks, preconditions=[], haltconditions=[])
+
+        class Rec(BoboDeciderSubscriber):
+            def __init__(self):
+                self.calls = []
+
+            def on_decider_update(self, completed, halted, updated, local):
+                self.calls.append(tuple(sorted((r.run_id, r.block_index, tuple(e.event_id for e in r.history.all_events()))
+                                               for r in lst) for lst in (completed, halted, updated)))
+        dec = BoboDecider(phenomena=[BoboPhenomenon(name="ph", patterns=[pat])], gen_event_id=SD.CountGen(10 ** 9),
+                          gen_run_id=SD.CountGen(1000), max_cache=0)
+        rec = Rec()
+        dec.subscribe(rec)
+        trace = []
+        for i, d in enumerate(stream):
+            dec.on_receiver_update(BoboEventSimple(event_id="e%d" % i, timestamp=i, data=d))
+            try:
+                dec.update()
+            except Exception as ex:      # noqa
+                trace.append("update raised %s" % type(ex).__name__)
+                break
+            trace.append((list(rec.calls), sorted((r.run_id, r.block_index) for r in dec.all_runs())))
+            rec.calls = []
+        return trace
+    a, b = drive(True), drive(False)
+    if a != b:
+        k = next(i for i, (x, y) in enumerate(zip(a + [None], b + [None])) if x != y)
+        return ("pattern %s over stream %s: with ONE block object at the positions holding the same letter, event %d gives %r; "
+                "with equal but distinct block objects it gives %r" % (list(layout), list(stream), k,
+                                                                        a[k] if k < len(a) else None, b[k] if k < len(b) else None))
+    return None
+
+
 def run(ctx, res):
+    for layout, stream in (("abbc", "abbc"), ("abac", "abac"), ("abbc", "abxbc"), ("aab", "aab"), ("abab", "ababab"), ("abcb", "abcb")):
+        bad = shared_block_case(layout, stream)
+        res.note_case(("shared-block", layout, stream), True)
+        if bad:
+            res.failures.append(dict(signature="run-position-depends-on-block-object-identity", what=bad, detail=None,
+                                     case=dict(shared_block=[layout, stream])))
     cases = gen_cases(ctx)
     results = pmap(work, cases)
     coq_cases = []
@@ -145,6 +205,10 @@ def run(ctx, res):
 
 
 def replay(obj):
+    if (obj.get("case") or {}).get("shared_block"):
+        bad = shared_block_case(*obj["case"]["shared_block"])
+        print(bad or "the same reports and active runs whether or not equal positions share one block object")
+        return 1 if bad else 0
     case = obj.get("case") or (obj.get("mismatches") or [{}])[0].get("case")
     if not case:
         print(obj)
